@@ -73,7 +73,7 @@ func Run(r *core.Report, env *build.Env) {
 	}
 	cells = append(cells, x.controlCells()...)
 	cells = append(cells, x.listCells()...)
-	llh.RunParallel(wrap(r, cells), 16)
+	llh.RunParallel(llh.Wrap(r, cells), 16)
 	r.Extra["undefined_in_ir"] = x.undef
 	r.Extra["cells_rejected_by_frontend"] = x.skipped
 	r.Extra["uncompilable_cells"] = x.uncomp
